@@ -45,12 +45,18 @@ func TestVerifC13(t *testing.T) {
 	emit := func(id string, bits int, ips []system.IP, mode string, r *verifh.Rand, tags []string) {
 		valid, pref, dep, epoch, now := verifw.Lifetimes(r)
 		onlink, auto := r.Bool(), r.Bool()
+		// The clock either stands still during one Apply or advances on every reading: every option expanded
+		// from the stanza carries the lifetimes at ONE instant (the first reading, c_now).
+		tick, reads := int64(0), int64(0)
+		if r.Chance(50) {
+			tick = verifh.Pick(r, []int64{1, 1e6, 1e9, 7e9, pref / 2})
+		}
 		p := &plugin.Prefix{
 			Auto: true, Prefix: netip.PrefixFrom(netip.IPv6Unspecified(), bits),
 			OnLink: onlink, Autonomous: auto,
 			ValidLifetime: time.Duration(valid), PreferredLifetime: time.Duration(pref),
 			Deprecated: dep, Epoch: time.Unix(0, epoch),
-			TimeNow: func() time.Time { return time.Unix(0, now) },
+			TimeNow: func() time.Time { reads++; return time.Unix(0, now+(reads-1)*tick) },
 		}
 		addrsCoq := verifh.Some(verifw.IPsCoq(ips))
 		switch mode {
@@ -65,7 +71,11 @@ func TestVerifC13(t *testing.T) {
 		}
 		ra := &ndp.RouterAdvertisement{}
 		err := p.Apply(ra)
-		c := verifh.Case{ID: id, Tags: append(tags, "source:"+mode, fmt.Sprintf("n:%d", min(len(ips), 8)), fmt.Sprintf("bits:%d", bits), "deprecated:"+verifh.B(dep))}
+		c := verifh.Case{ID: id, Tags: append(tags, "source:"+mode, fmt.Sprintf("n:%d", min(len(ips), 8)), fmt.Sprintf("bits:%d", bits), "deprecated:"+verifh.B(dep),
+			fmt.Sprintf("clock-ticks-within-apply:%v", tick > 0))}
+		if dep && tick > 0 && len(ra.Options) >= 2 {
+			c.Tags = append(c.Tags, "deprecated+ticking-clock+several-prefixes")
+		}
 		if err != nil && len(ra.Options) != 0 {
 			c.ImplViolation = "Apply returned an error but left options in the RA"
 		}
@@ -73,7 +83,7 @@ func TestVerifC13(t *testing.T) {
 		c.Coq = verifh.App("mkCase", verifh.N(uint64(bits)), verifh.B(onlink), verifh.B(auto), verifh.Z(valid), verifh.Z(pref),
 			verifh.B(dep), verifh.Z(epoch), verifh.Z(now), addrsCoq, obsCoq)
 		c.Input = map[string]any{"bits": bits, "addrs": verifw.IPsJSON(ips), "source": mode, "onlink": onlink, "autonomous": auto,
-			"valid_ns": valid, "preferred_ns": pref, "deprecated": dep, "epoch_ns": epoch, "now_ns": now}
+			"valid_ns": valid, "preferred_ns": pref, "deprecated": dep, "epoch_ns": epoch, "now_ns": now, "clock_tick_per_reading_ns": tick}
 		c.Observed = obsJ
 		out.Emit(c)
 	}
